@@ -252,9 +252,37 @@ func descCall(c *ssa.Call, depth int) string {
 			args = append(args, descAllocAt(al, c, depth+1))
 			continue
 		}
+		// the result of a fluent setter IS its receiver: what it holds at this point is what the
+		// closest dominating setter put there (the same scratch integer checked twice, loaded with r
+		// and then with s, is two different statements)
+		if al := fluentBase(a, 0); al != nil && depth < 2 {
+			args = append(args, descAllocAt(al, c, depth+1))
+			continue
+		}
 		args = append(args, descValue(a, depth+1))
 	}
 	return descCallee(cl) + "(" + strings.Join(args, ",") + ")"
+}
+
+// fluentBase: v is (a chain of) fluent setter calls on a local cell; returns the cell.
+func fluentBase(v ssa.Value, d int) *ssa.Alloc {
+	c, ok := v.(*ssa.Call)
+	if !ok || d > 4 || c.Call.IsInvoke() || len(c.Call.Args) == 0 {
+		return nil
+	}
+	cl := calleeOf(&c.Call)
+	if cl.Recv == "" || !(strings.HasPrefix(cl.Name, "Set") || (cl.Pkg == "math/big" && !bigGetter[cl.Name])) {
+		return nil
+	}
+	switch r := c.Call.Args[0].(type) {
+	case *ssa.Alloc:
+		if types.Identical(c.Type(), r.Type()) {
+			return r
+		}
+	case *ssa.Call:
+		return fluentBase(r, d+1)
+	}
+	return nil
 }
 
 // descAllocAt describes a local cell at a program point by the closest dominating call that
@@ -263,20 +291,33 @@ func descCall(c *ssa.Call, depth int) string {
 func descAllocAt(a *ssa.Alloc, at ssa.Instruction, depth int) string {
 	base := descValue(a, depth)
 	var best *ssa.Call
-	for _, r := range *a.Referrers() {
-		call, ok := r.(*ssa.Call)
-		if !ok || call == at || len(call.Call.Args) == 0 || call.Call.Args[0] != ssa.Value(a) || call.Call.IsInvoke() {
+	// the cell and every fluent setter result on it (which is the cell again) denote one object
+	aliases := []ssa.Value{a}
+	seenAlias := map[ssa.Value]bool{a: true}
+	for i := 0; i < len(aliases) && i < 16; i++ {
+		refs := aliases[i].Referrers()
+		if refs == nil {
 			continue
 		}
-		cl := calleeOf(&call.Call)
-		if cl.Recv == "" || !(strings.HasPrefix(cl.Name, "Set") || (cl.Pkg == "math/big" && !bigGetter[cl.Name])) {
-			continue
-		}
-		if !instrDominates(call, at) {
-			continue
-		}
-		if best == nil || instrDominates(best, call) {
-			best = call
+		for _, r := range *refs {
+			call, ok := r.(*ssa.Call)
+			if !ok || len(call.Call.Args) == 0 || call.Call.Args[0] != aliases[i] || call.Call.IsInvoke() {
+				continue
+			}
+			cl := calleeOf(&call.Call)
+			if cl.Recv == "" || !(strings.HasPrefix(cl.Name, "Set") || (cl.Pkg == "math/big" && !bigGetter[cl.Name])) {
+				continue
+			}
+			if types.Identical(call.Type(), a.Type()) && !seenAlias[call] {
+				seenAlias[call] = true
+				aliases = append(aliases, call)
+			}
+			if call == at || !instrDominates(call, at) {
+				continue
+			}
+			if best == nil || instrDominates(best, call) {
+				best = call
+			}
 		}
 	}
 	if best == nil {
@@ -384,6 +425,80 @@ func stmtEdges(fn *ssa.Function) map[string]map[edge]bool {
 					byStmt[s] = map[edge]bool{}
 				}
 				byStmt[s][edge{b.Index, b.Succs[ei].Index}] = true
+			}
+		}
+		// a materialised short-circuit condition (`case A || B:` of a tagless switch, `ok := A && B;
+		// if ok`): phi[true, B] is false only if B is false; phi[false, B] is true only if B is true
+		if a.Kind == "val" {
+			if ph, isPhi := a.X.(*ssa.Phi); isPhi {
+				nTrue, nFalse := 0, 0
+				var rest []ssa.Value
+				for _, e := range ph.Edges {
+					if k, isConst := constBool(e); isConst {
+						if k {
+							nTrue++
+						} else {
+							nFalse++
+						}
+					} else {
+						rest = append(rest, e)
+					}
+				}
+				if len(rest) == 1 {
+					if _, nested := rest[0].(*ssa.Phi); !nested {
+						inner := atomOf(rest[0])
+						// the only predecessor through which the phi can have the non-constant value
+						var via *ssa.BasicBlock
+						for i, e := range ph.Edges {
+							if e == rest[0] && i < len(ph.Block().Preds) {
+								via = ph.Block().Preds[i]
+							}
+						}
+						add := func(condValue bool, innerTrue bool) {
+							// the edge of this If on which the phi has the value condValue
+							ei := 0
+							if condValue == a.Neg {
+								ei = 1
+							}
+							iei := 0
+							if !innerTrue {
+								iei = 1
+							}
+							put := func(s string) {
+								if byStmt[s] == nil {
+									byStmt[s] = map[edge]bool{}
+								}
+								byStmt[s][edge{b.Index, b.Succs[ei].Index}] = true
+							}
+							for _, s := range allEdgeStmts(inner, iei) {
+								put(s)
+							}
+							// control came through `via`: what held there holds here (A is false when
+							// A || B is false), which edge deletion alone cannot see
+							for d := via; d != nil && ph.Block() == b; d = d.Idom() {
+								id := d.Idom()
+								if id == nil || len(d.Preds) != 1 || len(id.Instrs) == 0 {
+									continue
+								}
+								if iff2, ok := id.Instrs[len(id.Instrs)-1].(*ssa.If); ok {
+									for k, sc := range id.Succs {
+										if sc == d && id.Succs[1-k] != d {
+											for _, s := range allEdgeStmts(atomOf(iff2.Cond), k) {
+												put(s)
+											}
+										}
+									}
+								}
+							}
+						}
+						if nFalse == 0 && nTrue > 0 {
+							add(false, false) // A || B is false: B is false
+						}
+						if nTrue == 0 && nFalse > 0 {
+							add(true, true) // A && B is true: B is true
+						}
+					}
+				}
 			}
 		}
 	}
